@@ -1310,6 +1310,9 @@ func hammer(t []string) (string, string) {
 				continue
 			}
 			v := judge(x.hist, rec.endStarted, rec.q)
+			if os.Getenv("VERIF_TRACE") != "" && strings.HasPrefix(v, "VIOL:") {
+				fmt.Fprintf(os.Stderr, "hammer: %s | kind=%c explicit=%d ver=%d hdr=%d snap=%d startW=%d endStarted=%d reads=%s\n", v, rec.q.kind, rec.q.explicit, rec.q.ver, rec.q.hdr, rec.q.snapTag, rec.startW, rec.endStarted, showReads(rec.q.reads))
+			}
 			if strings.HasPrefix(v, "VIOL:mixed") {
 				mixed++
 			}
